@@ -73,6 +73,20 @@ impl prometheus::core::Collector for Logged {
     }
 }
 
+/// A hand-written collector made of several library metrics.
+struct TwoInOne {
+    parts: Vec<Box<dyn prometheus::core::Collector>>,
+}
+
+impl prometheus::core::Collector for TwoInOne {
+    fn desc(&self) -> Vec<&prometheus::core::Desc> {
+        self.parts.iter().flat_map(|p| p.desc()).collect()
+    }
+    fn collect(&self) -> Vec<prometheus::proto::MetricFamily> {
+        self.parts.iter().flat_map(|p| p.collect()).collect()
+    }
+}
+
 fn specs_json(specs: &[MetricSpec]) -> Json {
     Json::Arr(
         specs
@@ -156,6 +170,19 @@ pub fn run_case(cx: &mut Ctx, mixed_kinds: bool) {
             twin.children.iter_mut().for_each(|c| c.updates.clear());
             if let (Ok(reg), Ok(a), Ok(b)) = (regspec.build(), t.build(), twin.build()) {
                 cx.part.count("equal_descriptor_other_kind_attempts", 1);
+                // one collector exporting both kinds under one descriptor must be refused as well
+                if let Ok(reg2) = regspec.build() {
+                    let both = TwoInOne { parts: vec![a.boxed(), b.boxed()] };
+                    if reg2.register(Box::new(both)).is_ok() {
+                        cx.owned_violation(
+                            "C14",
+                            "collector-exporting-two-kinds-under-one-descriptor-admitted",
+                            "register",
+                            format!("one collector exporting {:?} {} and {:?} {} with the same constant labels was registered", t.kind, t.name, twin.kind, twin.name),
+                            specs_json(&[t.clone(), twin.clone()]),
+                        );
+                    }
+                }
                 if reg.register(a.boxed()).is_ok() && reg.register(b.boxed()).is_ok() {
                     cx.owned_violation(
                         "C14",
